@@ -538,7 +538,10 @@ def lagrange(pairs):
   A Poly instance that allows finding the interpolated value for any ``x``.
 
   """
-  return lagrange.func(pairs)(x)
+  result = lagrange.func(pairs)(x)
+  if isinstance(result, (Poly, Stream)): # Stream: ordinates that are Streams
+    return result
+  return Poly(result) # There was only one point
 
 
 @tostream
